@@ -126,7 +126,8 @@ def run_tlc(
     hard = [l for l in errors if "violated" not in l and "behavior up to this point" not in l
             and "The following behavior constitutes a counter-example" not in l]
     if hard and not res.violated:
-        raise TlcFailure(f"TLC error in {module.name}/{cfg.name}:\n" + out[-4000:])
+        first = out.find("Error:")
+        raise TlcFailure(f"TLC error in {module.name}/{cfg.name}:\n" + out[first:first + 1500] + "\n...\n" + out[-1500:])
     if not finished and not res.violated:
         raise TlcFailure(f"TLC did not finish for {module.name}/{cfg.name}:\n" + out[-4000:])
     if res.violated and not allow_violation:
